@@ -243,12 +243,12 @@ class Run:
         return 1 if self.violations else 0
 
 
-def load_obs(path):
+def load_obs(path, keep=None):
     out = {}
     with open(path) as f:
         for ln in f:
             o = json.loads(ln)
-            out[(o["gi"], o["ii"], o["oi"])] = o
+            out[(o["gi"], o["ii"], o["oi"])] = o if keep is None else {f_: o.get(f_) for f_ in keep}
     return out
 
 
@@ -257,10 +257,16 @@ def pairwise(run, pairs, fields=("status", "ok", "end", "val", "errs", "nomatch"
     Returns divergence records shaped like T1's."""
     div, n = [], 0
     cache = {}
-    for a, b in pairs:
+    last = {}
+    for i, (a, b) in enumerate(pairs):
+        last[a] = last[b] = i
+    keep = set(fields) | {"k"}
+    for i, (a, b) in enumerate(pairs):
+        for x in [y for y in cache if last[y] < i]:      # a thorough run does not fit in memory as a whole
+            del cache[x]
         for x in (a, b):
             if x not in cache:
-                cache[x] = load_obs(run.obs[x])
+                cache[x] = load_obs(run.obs[x], keep if only is None else None)
         oa, ob = cache[a], cache[b]
         for key, o1 in oa.items():
             k2 = key if optmap is None else (key[0], key[1], optmap.get(key[2]))
